@@ -14,6 +14,9 @@ BODIES = {
 }
 # not in BODY_KINDS (used by C02 only): lines longer than delta's default --max-line-length (3000 bytes)
 BODIES["long"] = [b" a", b"-" + b"y" * 3100, b"+" + b"z" * 3100, b" " + b"w" * 3100]
+# not in BODY_KINDS (plain diff sources only): an entirely empty context line, as `diff -u --suppress-blank-empty`
+# and whitespace-stripping mail tools produce
+BODIES["emptyctx"] = [b" a", b"", b"-b", b"+c"]
 BODY_KINDS = ["ctx", "minus", "plus", "minusplus", "nonl"]
 
 
